@@ -75,6 +75,23 @@ pub unsafe extern "C" fn getrandom(buf: *mut u8, len: usize, flags: u32) -> isiz
     syscall(SYS_GETRANDOM, buf, len, flags) as isize
 }
 
+// ------------------------------------------------------------------ standard output seam
+//
+// The simulated program's prints go to fd 1 (pointed at /dev/null in the processes that run
+// simulated code). Interposing write(2) lets a scenario stall that descriptor: a thread that
+// writes to a stalled stdout is treated as blocked for ever (see rt::stdout_write_blocks).
+#[no_mangle]
+pub unsafe extern "C" fn write(fd: i32, buf: *const u8, count: usize) -> isize {
+    extern "C" {
+        fn syscall(num: i64, ...) -> i64;
+    }
+    if fd == 1 && verif_rt::rt::in_run() && verif_rt::rt::stdout_write_blocks() {
+        return count as isize; // swallowed; the writer is marked as blocked
+    }
+    const SYS_WRITE: i64 = 1; // x86_64
+    syscall(SYS_WRITE, fd, buf, count) as isize
+}
+
 fn usage() -> ! {
     out!("usage: sim <C05|C08|C09|C19|C20> <quick|thorough> | sim replay <file> | sim selftest-determinism [runs]");
     std::process::exit(2);
